@@ -51,12 +51,57 @@ static void genSingle(uint64_t idx, vh::Rng& g, Alpha& al, RTA& a, std::string& 
 	}
 }
 
+// in-place mutation of a live automaton object (and of its reference): a rule over existing
+// states, or a final-state change — the object keeps its identity, storage and history
+static void mutateInPlace(vh::Rng& g, const Alpha& al, Aut& A, RTA& a, CaseAlphabet& ca)
+{
+	std::set<St> ss = a.states(); std::vector<St> st(ss.begin(), ss.end()); if (st.empty()) st.push_back(0);
+	int k = static_cast<int>(g.below(5));
+	if (k == 0) { St f = st[g.below(st.size())]; A.SetStateFinal(f); a.fin.insert(f); }
+	else if (k == 1 && g.chance(1, 2)) { A.EraseFinalStates(); a.fin.clear(); St f = st[g.below(st.size())]; A.SetStateFinal(f); a.fin.insert(f); }
+	else
+	{
+		RTA e = gen::randTA(g, al, st, g.range(1, 2), 0);
+		for (auto& r : e.rules) { std::vector<size_t> ch(r.ch.begin(), r.ch.end()); A.AddTransition(ch, ca.num[r.sym], r.par); a.rules.insert(r); }
+	}
+}
+
+// "Results as operands": with probability 1/4 the subject is replaced by the RESULT of a library
+// operation on it (an object whose internal state has a history); its reference is what the
+// result reads as. The case's alphabet object is set again (results may carry another one).
+static void maybeDerive(vh::Rng& g, Aut& A, RTA& a, CaseAlphabet& ca, std::string& kind)
+{
+	if (!g.chance(1, 4)) return;
+	static const char* names[] = {"remove-useless", "remove-unreachable", "reduce", "union-with-itself", "reindex", "copy-of-destroyed", "candidate"};
+	int k = static_cast<int>(g.below(7));
+	try
+	{
+		switch (k)
+		{
+			case 0: A = A.RemoveUselessStates(); break;
+			case 1: A = A.RemoveUnreachableStates(); break;
+			case 2: A = A.Reduce(); break;
+			case 3: A = Aut::Union(A, A); break;
+			case 4: { AutBase::StateToStateMap m; size_t c = 3; AutBase::StateToStateTranslWeak tr(m, [&c](const size_t&) { c += 2; return c; }); A = A.ReindexStates(tr); break; }
+			case 5: { std::unique_ptr<Aut> tmp(new Aut(A)); Aut B2(*tmp); tmp.reset(); A = B2; break; }
+			default: A = A.GetCandidateTree(); break;
+		}
+	}
+	catch (std::exception&) { return; }
+	A.SetAlphabet(ca.alpha); a = readExpl(A, &ca); (void)kind; R->count(std::string("derived-subject:") + names[k]);
+}
+
 // ======================================================================= C03
 static void caseC03(uint64_t idx, vh::Rng& g)
 {
 	Alpha al; RTA a; std::string kind; genSingle(idx, g, al, a, kind, 6, 12);
+	CaseAlphabet ca(al); Aut A = mkExpl(a, ca); maybeDerive(g, A, a, ca, kind);
 	R->desc(caseText(al, a)); R->count("gen:" + kind);
-	CaseAlphabet ca(al); Aut A = mkExpl(a, ca);
+	int rounds = g.chance(1, 4) ? 3 : 1;   // a quarter of the cases: the same object again after in-place modification
+	for (int round = 0; round < rounds; ++round)
+	{
+	std::string C03 = round ? "C03/after-in-place-mutation" : "C03";
+	if (round) { mutateInPlace(g, al, A, a, ca); R->desc(caseText(al, a) + "(modified in place, round " + vh::str(round) + ")"); R->count("after-in-place-mutation"); R->extraEvaluation(); }
 	std::set<St> useful = rm::useful(a), reach = rm::reachableTD(a), all = a.states();
 	bool nontriv = !all.empty() && (useful.size() < all.size() || !useful.empty());
 	if (nontriv) { R->nontrivial(caseHash(al, a)); if (R->wantSample()) R->sample(kind + "\n" + caseText(al, a)); }
@@ -73,31 +118,32 @@ static void caseC03(uint64_t idx, vh::Rng& g)
 		R->phase("RemoveUnreachableStates");
 		Aut u = A.RemoveUnreachableStates(); RTA ru = readExpl(u, &ca);
 		int c = rm::cmpLang(a, ru, al);
-		if (c > 0) R->violation("C03/unreach/language", "language changed (diff mask " + vh::str(c) + ")");
+		if (c > 0) R->violation(C03 + "/unreach/language", "language changed (diff mask " + vh::str(c) + ")");
 		else if (c < 0) R->inconclusive("rm-cap");
 		std::set<St> rr = rm::reachableTD(ru);
-		for (St s : ru.states()) if (!rr.count(s)) { R->violation("C03/unreach/dead-state", "state " + vh::str(s) + " still occurs but is not reachable from a final state"); break; }
-		if (readExpl(A, &ca) != a) R->violation("C03/unreach/operand-changed", "");
+		for (St s : ru.states()) if (!rr.count(s)) { R->violation(C03 + "/unreach/dead-state", "state " + vh::str(s) + " still occurs but is not reachable from a final state"); break; }
+		if (readExpl(A, &ca) != a) R->violation(C03 + "/unreach/operand-changed", "");
 
 		R->phase("RemoveUselessStates");
 		Aut v = A.RemoveUselessStates(); RTA rv = readExpl(v, &ca);
 		c = rm::cmpLang(a, rv, al);
-		if (c > 0) R->violation("C03/useless/language", "language changed (diff mask " + vh::str(c) + ")");
+		if (c > 0) R->violation(C03 + "/useless/language", "language changed (diff mask " + vh::str(c) + ")");
 		std::set<St> uu = rm::useful(rv), prod = rm::productive(rv);
-		for (St s : rv.states()) if (!uu.count(s)) { R->violation("C03/useless/dead-state", "state " + vh::str(s) + " takes part in no accepting run"); break; }
+		for (St s : rv.states()) if (!uu.count(s)) { R->violation(C03 + "/useless/dead-state", "state " + vh::str(s) + " takes part in no accepting run"); break; }
 		for (auto& r : rv.rules)
 		{
 			bool ok = uu.count(r.par) != 0; for (St ch : r.ch) if (!prod.count(ch)) ok = false;
-			if (!ok) { R->violation("C03/useless/dead-rule", "rule with parent " + vh::str(r.par) + " takes part in no accepting run"); break; }
+			if (!ok) { R->violation(C03 + "/useless/dead-rule", "rule with parent " + vh::str(r.par) + " takes part in no accepting run"); break; }
 		}
-		if (readExpl(A, &ca) != a) R->violation("C03/useless/operand-changed", "");
+		if (readExpl(A, &ca) != a) R->violation(C03 + "/useless/operand-changed", "");
 
 		R->phase("IsLangEmpty");
 		int e = rm::refEmpty(a, al);
 		bool got = A.IsLangEmpty();
-		if (e >= 0) { R->count(e ? "empty-language" : "nonempty-language"); if (got != static_cast<bool>(e)) R->violation("C03/empty/verdict", std::string("IsLangEmpty=") + (got ? "true" : "false")); }
+		if (e >= 0) { R->count(e ? "empty-language" : "nonempty-language"); if (got != static_cast<bool>(e)) R->violation(C03 + "/empty/verdict", std::string("IsLangEmpty=") + (got ? "true" : "false")); }
 	}
-	catch (std::exception& ex) { R->violation("C03/exception", ex.what()); }
+	catch (std::exception& ex) { R->violation(C03 + "/exception", ex.what()); return; }
+	}
 }
 
 // ======================================================================= C15
@@ -118,8 +164,13 @@ static void caseC15(uint64_t idx, vh::Rng& g)
 		if (g.chance(1, 2)) { RRule r; r.sym = 1; r.ch = {static_cast<St>(d + 7)}; r.par = d + 5; a.rules.insert(r); }
 	}
 	else genSingle(idx, g, al, a, kind, 6, 12);
+	CaseAlphabet ca(al); Aut A = mkExpl(a, ca); maybeDerive(g, A, a, ca, kind);
 	R->desc(caseText(al, a)); R->count("gen:" + kind);
-	CaseAlphabet ca(al); Aut A = mkExpl(a, ca);
+	int rounds = g.chance(1, 4) ? 3 : 1;
+	for (int round = 0; round < rounds; ++round)
+	{
+	std::string C15 = round ? "C15/after-in-place-mutation" : "C15";
+	if (round) { mutateInPlace(g, al, A, a, ca); R->desc(caseText(al, a) + "(modified in place, round " + vh::str(round) + ")"); R->count("after-in-place-mutation"); R->extraEvaluation(); }
 	int e = rm::refEmpty(a, al);
 	if (e == 0) { R->nontrivial(caseHash(al, a)); if (R->wantSample()) R->sample(kind + "\n" + caseText(al, a)); }
 	if (e >= 0) R->count(e ? "empty-language" : "nonempty-language");
@@ -129,12 +180,13 @@ static void caseC15(uint64_t idx, vh::Rng& g)
 		Aut c = A.GetCandidateTree(); RTA rc = readExpl(c, &ca);
 		int r = rm::cmpLang(rc, a, al);
 		if (r < 0) { R->inconclusive("rm-cap"); return; }
-		if (r & 1) R->violation("C15/not-sublanguage", "witness accepts a tree the original rejects");
+		if (r & 1) R->violation(C15 + "/not-sublanguage", "witness accepts a tree the original rejects");
 		int ec = rm::refEmpty(rc, al);
-		if (ec == 1 && e == 0) R->violation("C15/empty-witness", "original language non-empty, witness empty");
-		if (readExpl(A, &ca) != a) R->violation("C15/operand-changed", "");
+		if (ec == 1 && e == 0) R->violation(C15 + "/empty-witness", "original language non-empty, witness empty");
+		if (readExpl(A, &ca) != a) R->violation(C15 + "/operand-changed", "");
 	}
-	catch (std::exception& ex) { R->violation("C15/exception", ex.what()); }
+	catch (std::exception& ex) { R->violation(C15 + "/exception", ex.what()); return; }
+	}
 }
 
 // ======================================================================= C05
@@ -167,21 +219,6 @@ static bool reduceOnce(Aut& A, const RTA& a, const Alpha& al, CaseAlphabet& ca, 
 	return true;
 }
 
-// in-place mutation of a live automaton object (and of its reference): a rule over existing
-// states, or a final-state change — the object keeps its identity, storage and history
-static void mutateInPlace(vh::Rng& g, const Alpha& al, Aut& A, RTA& a, CaseAlphabet& ca)
-{
-	std::set<St> ss = a.states(); std::vector<St> st(ss.begin(), ss.end()); if (st.empty()) st.push_back(0);
-	int k = static_cast<int>(g.below(5));
-	if (k == 0) { St f = st[g.below(st.size())]; A.SetStateFinal(f); a.fin.insert(f); }
-	else if (k == 1 && g.chance(1, 2)) { A.EraseFinalStates(); a.fin.clear(); St f = st[g.below(st.size())]; A.SetStateFinal(f); a.fin.insert(f); }
-	else
-	{
-		RTA e = gen::randTA(g, al, st, g.range(1, 2), 0);
-		for (auto& r : e.rules) { std::vector<size_t> ch(r.ch.begin(), r.ch.end()); A.AddTransition(ch, ca.num[r.sym], r.par); a.rules.insert(r); }
-	}
-}
-
 static void caseC05(uint64_t idx, vh::Rng& g)
 {
 	Alpha al; RTA a; std::string kind; genSingle(idx, g, al, a, kind, 7, 14);
@@ -192,8 +229,8 @@ static void caseC05(uint64_t idx, vh::Rng& g)
 		for (St s : a.states()) m[s] = tgt[i++];
 		a = rm::mapStates(a, m); kind += "+sparse";
 	}
+	CaseAlphabet ca(al); Aut A = mkExpl(a, ca); maybeDerive(g, A, a, ca, kind);
 	R->desc(caseText(al, a)); R->count("gen:" + kind);
-	CaseAlphabet ca(al); Aut A = mkExpl(a, ca);
 	{	// non-trivial: the reference downward simulation equivalence has a class of size >= 2
 		std::map<St, St> dm; RTA d = rm::densify(a, &dm); int n = static_cast<int>(dm.size());
 		rm::Rel sim = rm::naiveDown(d, n); bool merge = false;
@@ -210,7 +247,7 @@ static void caseC05(uint64_t idx, vh::Rng& g)
 			std::unique_ptr<Aut> copy; if (g.chance(1, 3)) copy.reset(new Aut(A));   // sometimes a live copy shares the storage
 			for (int round = 0; round < 3; ++round)
 			{
-				mutateInPlace(g, al, A, a, ca); R->desc(caseText(al, a) + "(reduced, then modified in place, round " + vh::str(round) + ")"); R->count("reduce-after-in-place-mutation");
+				mutateInPlace(g, al, A, a, ca); R->desc(caseText(al, a) + "(reduced, then modified in place, round " + vh::str(round) + ")"); R->count("reduce-after-in-place-mutation"); R->extraEvaluation();
 				if (!reduceOnce(A, a, al, ca, "/after-in-place-mutation")) return;
 			}
 		}
@@ -342,8 +379,8 @@ static void caseC02(uint64_t idx, vh::Rng& g)
 		a = exPair.get(k % n); b = exPair.get(k / n);
 	}
 	else gen::genPair(g, 5, 9, al, a, b, kind);
+	CaseAlphabet ca(al); Aut A = mkExpl(a, ca), B = mkExpl(b, ca); maybeDerive(g, A, a, ca, kind); maybeDerive(g, B, b, ca, kind);
 	R->desc(caseText(al, a, &b)); R->count("gen:" + kind);
-	CaseAlphabet ca(al); Aut A = mkExpl(a, ca), B = mkExpl(b, ca);
 	int ea = rm::refEmpty(a, al), eb = rm::refEmpty(b, al);
 	bool nontriv = (ea == 0 && eb == 0);
 	auto opnd = [&](const char* op) { if (readExpl(A, &ca) != a || readExpl(B, &ca) != b) R->violation(std::string("C02/") + op + "/operand-changed", ""); };
@@ -419,8 +456,8 @@ struct SymF : Aut::AbstractSymbolTranslateF
 static void caseC14(uint64_t idx, vh::Rng& g)
 {
 	Alpha al; RTA a; std::string kind; genSingle(idx, g, al, a, kind, 6, 12);
+	CaseAlphabet ca(al); Aut A = mkExpl(a, ca); maybeDerive(g, A, a, ca, kind);
 	R->desc(caseText(al, a)); R->count("gen:" + kind);
-	CaseAlphabet ca(al); Aut A = mkExpl(a, ca);
 	std::set<St> states = a.states(); int ns = static_cast<int>(states.size());
 	std::map<size_t, size_t> m; int mode = static_cast<int>(g.below(5)); bool injective = true;
 	{
